@@ -51,6 +51,18 @@ impl Rng {
             self.byte()
         }
     }
+    /// n bytes, each drawn from the corner values half of the time
+    pub fn cbytes(&mut self, n: usize) -> Vec<u8> {
+        (0..n).map(|_| self.cbyte()).collect()
+    }
+    /// a 16-bit value with corner values over-weighted
+    pub fn c16(&mut self) -> u16 {
+        if self.chance(1, 3) { self.pick(&[0u16, 1, 0xFF, 0x100, 0x7FFF, 0x8000, 0xFF00, 0xFFFF]) } else { (self.next() >> 20) as u16 }
+    }
+    /// a 32-bit value with corner values over-weighted
+    pub fn c32(&mut self) -> u32 {
+        if self.chance(1, 3) { self.pick(&[0u32, 1, 0xFF, 0xFFFF, 0x1_0000, 0xFF_FFFF, 0x100_0000, 0x8000_0000, 0xFFFF_FFFF, 0x0001_0203]) } else { (self.next() >> 16) as u32 }
+    }
     pub fn fork(&mut self) -> Rng {
         Rng::new(self.next())
     }
